@@ -50,7 +50,7 @@ def r14_1(cx):
     fwd = prog.const_int('vouched_time::MAX_FORWARD_DISCREPANCY_MS')
     bwd = prog.const_int('vouched_time::MAX_BACKWARD_DISCREPANCY_MS')
     cx.require(fn.argc == 2 and fn.locals[1] == 'i128' and fn.locals[2] == 'u64', 'check_vouched_time(i128, u64) signature changed')
-    pe = PathEval(fn, {1: 'L', 2: 'B'})
+    pe = PathEval(fn, {1: 'L', 2: 'B'}, propagate=False)  # cells are read off the raw (L, L-B) constraints
     outcomes = []
 
     def on_return(path, st):
